@@ -520,7 +520,8 @@ def c03_clauses(mem, spec, specf, fbytes):
     if len(fbytes) < real_data: F("padding", "file ends before the block boundary after the parameters")
     if (int(H["dataStart"]) - 1) * 512 != real_data:
         F("header_data_start", "header data start block %s, data really start at block %d" % (H["dataStart"], real_data // 512 + 1))
-    ds = [p for p in specf["params"] if p["name"] == "x" + b"DATA_START".hex() and p["gid"] == 1]
+    pg = [g["gid"] for g in specf["groups"] if g["name"] == "x" + b"POINT".hex()]
+    ds = [p for p in specf["params"] if p["name"] == "x" + b"DATA_START".hex() and pg and p["gid"] == pg[0]]
     if ds and ds[0]["type"] == "I" and ds[0]["vals"] and int(ds[0]["vals"][0]) != real_data // 512 + 1:
         F("point_data_start", "POINT:DATA_START %s, data really start at block %d" % (ds[0]["vals"][0], real_data // 512 + 1))
     # header counts vs parameters (as decoded from the file)
